@@ -650,6 +650,7 @@ func main() {
 	c := kit.New("C07", "exploration")
 	c.Rule = "generated claims (nested user fields whose keys collide with machinery names at deeper levels, every subset of claim machinery fields with valid values, Manual/Automatic/unset policy, reserved and unreserved label/annotation keys, external name) and XR pre-states (resourceRefs, own connection secret ref, external name, composition refs, status with user fields, private conditions, connectionDetails) synced twice (first sync, then re-sync after a user edit and an XR status change) by the production-wired claim reconciler for both syncers; stored XR and claim compared field by field with the partition from the property statement. Top-level user spec fields never use a machinery name (quantifier: collisions only at other nesting levels); label domains that merely end in kubernetes.io without a dot boundary are not generated. distinct = generated case; non-trivial = >=1 nested user field and >=1 machinery field on the claim."
 	c.Rule += " " + "A fourth sync reads the XR through a stale cache: XR-owned fields keep the XR controller's latest values."
+	c.Rule += " " + "A fifth sync after another writer set the claim-owned field on the XR."
 	c.Assumptions = []string{"the XRD schema preserves unknown fields, so no pruning is needed for the generated claims", "sim implements SSA via the k8s managedfields library"}
 	c.Floor = 200
 	n := c.N(2000, 40000)
